@@ -2,6 +2,7 @@ pub mod c01;
 pub mod c02;
 pub mod c15;
 pub mod c16;
+pub mod c19;
 pub mod c20;
 
 use crate::PropEntry;
@@ -12,6 +13,7 @@ pub fn registry() -> Vec<PropEntry> {
 		PropEntry { id: "C02", level: "exploration", check: c02::check, replay: c02::replay },
 		PropEntry { id: "C15", level: "exploration", check: c15::check, replay: c15::replay },
 		PropEntry { id: "C16", level: "exploration", check: c16::check, replay: c16::replay },
+		PropEntry { id: "C19", level: "exploration", check: c19::check, replay: c19::replay },
 		PropEntry { id: "C20", level: "exploration", check: c20::check, replay: c20::replay },
 	]
 }
